@@ -245,11 +245,11 @@ Proof. induction a; [destruct b; reflexivity|]. cbn. f_equal. exact IHa. Qed.
 Lemma lenN_app (a b : list N) : lenN (a ++ b) = lenN a + lenN b.
 Proof. unfold lenN. rewrite app_length. lia. Qed.
 
-Lemma scan_loop_spec {St : Type} (fn : St -> N -> N -> St * bool) data start :
+Lemma scan_loop_spec {St : Type} chk (fn : St -> N -> N -> St * bool) data start :
   forall l fuel limit pos prev rest s,
   asc prev l -> prev < two64 -> start <= pos -> (pos = start -> prev = 0) ->
   limit = pos + lenN (enc_deltas prev l) -> (length l <= fuel)%nat ->
-  scan_loop fuel data start limit fn pos (enc_deltas prev l ++ rest) prev s
+  scan_loop chk fuel data start limit fn pos (enc_deltas prev l ++ rest) prev s
   = Ok (run_fn fn s (vps pos prev l)).
 Proof.
   induction l as [|x l IH]; intros fuel limit pos prev rest s Hasc Hprev Hge Hst Hlim Hfuel.
@@ -259,7 +259,7 @@ Proof.
     pose proof (put_uvarint_nonempty (x - prev)) as Hne.
     destruct fuel as [|fuel]; [cbn in Hfuel; lia|]. cbn [scan_loop].
     replace (pos <? limit) with true by (symmetry; apply N.ltb_lt; unfold lenN in *; lia).
-    rewrite <- app_assoc. rewrite uvarint_put by lia.
+    rewrite <- app_assoc. rewrite uvarint_put by lia. cbn [bind].
     assert (Hv : (if pos =? start then x - prev else wrap64 (prev + (x - prev))) = x).
     { destruct (pos =? start) eqn:E.
       - apply N.eqb_eq in E. rewrite (Hst E). lia.
@@ -934,7 +934,8 @@ Proof.
 Qed.
 
 (* ------------------------------------------------------------------ *)
-(* a parsed-but-corrupted block makes the WRITER's section scan diverge:
+(* OLD code (before /repo commit 2876db98, [chk = false]): a parsed-but-corrupted
+   block makes the WRITER's section scan diverge:
    data = [0x80] (a lone continuation byte), one restart at 0, descriptor
    claiming 2 entries with max 5.  pop(5) calls sectionSearch -> scanSection,
    where binary.Uvarint returns n = 0 and the loop `pos += n` never advances. *)
@@ -943,11 +944,46 @@ Definition search_fn (n : N) (s : bool * N * N) (v p : N) : (bool * N * N) * boo
   if n =? v then ((true, prv, p), true) else ((found, v, ps), false).
 
 Lemma corrupt_scan_diverges : forall fuel s,
-  scan_loop fuel [128] 0 1 (search_fn 5) 0 [128] 0 s = Err EFuel.
+  scan_loop false fuel [128] 0 1 (search_fn 5) 0 [128] 0 s = Err EFuel.
 Proof.
   induction fuel as [|fuel IH]; intros [[f p] q]; [reflexivity|].
   cbn [scan_loop]. change (0 <? 1) with true. cbv iota.
-  change (uvarint [128]) with UvShort. cbv iota beta.
+  change (uvarint [128]) with UvShort. cbv iota beta. cbn [bind].
   change (0 =? 0) with true. cbv iota. unfold search_fn at 1. change (5 =? 0) with false. cbv iota.
   change (0 + N.of_nat 0) with 0. change (skipn 0 [128]) with [128]. apply IH.
 Qed.
+
+(* ------------------------------------------------------------------ *)
+(* a concrete reachable history, for the non-vacuity example            *)
+Fixpoint leqb (a b : list N) : bool :=
+  match a, b with
+  | [], [] => true
+  | x :: a', y :: b' => (x =? y) && leqb a' b'
+  | _, _ => false
+  end.
+
+Fixpoint pops (ids : list N) (b : bwriter) : option bwriter :=
+  match ids with
+  | [] => Some b
+  | id :: r => match bw_pop b id with Ok b' => pops r b' | Err _ => None end
+  end.
+
+Definition nonvac_ids : list N := map (fun i => 1000 + 300 * N.of_nat i) (seq 0 260).
+
+(* 260 ids (two restart sections) appended under the guards; the decoded ids,
+   the restart count and the finish/parse round trip are checked; then five
+   pops cross the section boundary back into the first section *)
+Definition nonvac_check : bool :=
+  match build nonvac_ids (mkBW (mkDesc 0 0 0) [] []) with
+  | None => false
+  | Some b =>
+      leqb (bw_abs b) nonvac_ids && Nat.eqb (length (bw_restarts b)) 2 &&
+      match parse_index_block (bw_finish b) with
+      | Ok (r, d) => leqb r (bw_restarts b) && leqb d (bw_data b)
+      | Err _ => false
+      end &&
+      match pops (rev (skipn 255 nonvac_ids)) b with
+      | Some b' => leqb (bw_abs b') (firstn 255 nonvac_ids) && Nat.eqb (length (bw_restarts b')) 1
+      | None => false
+      end
+  end.
